@@ -28,7 +28,7 @@ def render(P, rng, opts=None):
     def comment_line(r, kind, sidx):
         st = r.choice(COMMENT_STARTS)
         txt = st + r.choice(COMMENT_BODIES)
-        if st == "!" and r.random() < 0.4:
+        if st == "!" and r.random() < 0.04:
             # '!' comments may start in any column but 6
             txt = " " * r.choice([1, 2, 3, 4, 6, 8, 12]) + txt
         lines.append(txt)
